@@ -7,7 +7,7 @@ From Coq Require Import List NArith Bool.
 Local Open Scope string_scope.
 Local Open Scope list_scope.
 Import ListNotations.
-From UV Require Import Py.Val Py.Str Py.UrlLib Ural.Utils Ural.Canonicalize Ural.Normalize Ural.SuffixTrie Proofs.NormFacts Proofs.ControlFacts.
+From UV Require Import Py.Val Py.Str Py.UrlLib Ural.Utils Ural.Canonicalize Ural.Normalize Ural.SuffixTrie Ural.Lru Ural.LruVariants Proofs.NormFacts Proofs.ControlFacts Proofs.VariantFacts.
 
 Theorem C07_get_normalized_hostname : forall e u amp,
   get_normalized_hostname e u amp false =
@@ -41,6 +41,18 @@ Theorem C07_surrounding_junk_irrelevant : forall e a u b amp,
   get_normalized_hostname e (a ++ u ++ b) amp false = get_normalized_hostname e u amp false.
 Proof. exact normalized_hostname_surrounding_junk. Qed.
 
+(* the stem helpers are the stems of the url-level result *)
+Theorem C07_canonicalized_stems : forall e t u sa dp q sf,
+  canonicalized_lru_stems e t u sa dp q sf =
+  match canonicalize_split e u dp q sf with Ok r => Ok (lru_stems_from_parsed t r sa) | Exc x => Exc x end.
+Proof. exact canonicalized_stems_spec. Qed.
+Theorem C07_fingerprinted_stems : forall e t u sa ss,
+  fingerprinted_lru_stems e t u sa ss =
+  match fingerprint_split e t ss u with Ok r => Ok (lru_stems_from_parsed t r sa) | Exc x => Exc x end.
+Proof. exact fingerprinted_stems_spec. Qed.
+
+Print Assumptions C07_canonicalized_stems.
+Print Assumptions C07_fingerprinted_stems.
 Print Assumptions C07_surrounding_junk_irrelevant.
 Print Assumptions C07_get_normalized_hostname.
 Print Assumptions C07_get_fingerprinted_hostname.
